@@ -95,6 +95,7 @@ def _write_cog(
     ovr_blocksize: Optional[int] = None,
     use_windowed_writes: bool = False,
     intermediate_compression: Union[bool, str, Dict[str, Any]] = False,
+    ydim: Optional[int] = None,
     **extra_rio_opts,
 ) -> Union[Path, bytes]:
     if blocksize is None:
@@ -111,10 +112,13 @@ def _write_cog(
         nbands = 1
         band = 1  # type: Any
     elif pix.ndim == 3:
-        if pix.shape[:2] == geobox.shape:
-            pix = pix.transpose([2, 0, 1])
-        elif pix.shape[-2:] != geobox.shape:
+        if ydim is None:
+            # only the shape to go by: Y,X,Band is tried first
+            ydim = 0 if pix.shape[:2] == geobox.shape else 1
+        if pix.shape[ydim : ydim + 2] != geobox.shape:
             raise ValueError("GeoBox shape does not match image shape")
+        if ydim == 0:
+            pix = pix.transpose([2, 0, 1])
 
         nbands, h, w = pix.shape  # type: ignore
         band = tuple(i for i in range(1, nbands + 1))
@@ -299,6 +303,7 @@ def write_cog(
         overview_levels=overview_levels,
         use_windowed_writes=use_windowed_writes,
         intermediate_compression=intermediate_compression,
+        ydim=geo_im.odc.ydim,
         **extra_rio_opts,
     )
 
@@ -430,6 +435,7 @@ def write_cog_layers(
                 img.odc.geobox,
                 m.name,
                 overview_levels=[],
+                ydim=img.odc.ydim,
                 **first_pass_cfg,
             )
 
